@@ -510,9 +510,20 @@ def run(ctx):
     if not lp:
         ctx.undec('R-IDKEEP', 'row copy', wgi, 'attribute copy loop not found')
     else:
-        skip = [s2 for s2 in lp[0].body if isinstance(s2, ast.If) and "'tracerid'" in norm(s2.test) and any(isinstance(x, ast.Continue) for x in s2.body)]
-        if skip:
-            ctx.ok('R-IDKEEP', 'row copy', wgi, norm(skip[0].test))
+        # path-wise: every path of the loop body that reaches the setattr has decided that the field is not tracerid (a `continue`
+        # guard, an enclosing `if pk != 'tracerid':`, a filtered iterable ... are the same thing)
+        from .. import paths as _p18
+        tv = norm(lp[0].target)
+        nset = nbad = 0
+        for pth in _p18.enumerate_paths(lp[0].body, limit=5000):
+            if not any(isinstance(c, ast.Call) and dotted(c.func) == 'setattr' for s2 in pth.stmts for c in walk_expr(s2)):
+                continue
+            nset += 1
+            if pth.polarity("%s == 'tracerid'" % tv) is not False:
+                nbad += 1
+        filtered = "'tracerid'" in norm(lp[0].iter)
+        if nset and (nbad == 0 or filtered):
+            ctx.ok('R-IDKEEP', 'row copy', wgi, "no path reaches setattr with %s == 'tracerid'" % tv)
         else:
             ctx.violation(Finding('R-IDKEEP', NB, 'gcvar.__init__', lp[0], 'every field of the tracer-table row is copied onto the variable, including tracerid: for a category with an offset the variable then carries '
                                   'offset + id instead of the id of its block header, the writer stores that, and re-reading applies the offset twice'))
